@@ -64,12 +64,57 @@ MSSMCoincidences ==
 
 AllCoincidencesC11 == AllCoincidences \cup {c \in MSSMCoincidences : c.a # c.b}
 
-\* ---- Part 2: argument classes ------------------------------------------------------------------------
-OneVarFunctions == {"F1C", "F2C", "F3C", "F4C", "F1N", "F2N", "F3N", "F4N", "G3", "G4", "f_PS", "f_S", "f_sferm", "f_CSl",
-                    "F1", "F1t", "F2", "F3", "dilog", "clausen_2"}
-\* classes of a positive argument relative to the special points 0, 1/4, 1, 1e2 and the Taylor windows
-ArgClasses == {"zero", "tiny", "small", "belowQuarter", "quarter", "aboveQuarter", "mid", "winLo", "one", "winHi",
-               "above", "hundred", "large", "huge", "negative"}
+\* ---- Part 2 (C01): evaluation regimes of the one-variable functions ------------------------------------------
+\* Transcribed from src/gm2_ffunctions.cpp / gm2_dilog.cpp: per function the Taylor window around 1 (relative
+\* closeness is_equal_rel(x, 1, eps), i.e. |x - 1| < eps (1 + max(x, 1)): the window is 1 - 2 eps < x < (1 + eps)/(1 - eps)), the threshold of the large-argument expansion, whether
+\* 1/4 is special-cased, the kind of value documented at exactly 0 and whether a negative argument must give NaN.
+\* Every regime and both sides of every regime boundary is an argument class; the harness concretises each class.
+NoWin == <<0, 1>>
+FSpec(win, hi, quarter, zero, tinyps) == [win |-> win, hi |-> hi, quarter |-> quarter, zero |-> zero, tinyps |-> tinyps]
+OneVar == [f \in {"F1C", "F2C", "F3C", "F4C", "F1N", "F2N", "F3N", "F4N", "G3", "G4", "f_PS", "f_S", "f_sferm", "f_CSl",
+                  "F1", "F1t", "F2", "F3"} |->
+   CASE f = "F1C" -> FSpec(<<3, 100>>, 0, FALSE, "limit", FALSE)          \* F1C(0) = 4
+     [] f = "F2C" -> FSpec(<<3, 100>>, 0, FALSE, "conv0", FALSE)          \* log-divergent, 0 by convention
+     [] f = "F3C" -> FSpec(<<3, 100>>, 0, FALSE, "none", FALSE)
+     [] f = "F4C" -> FSpec(<<3, 100>>, 0, FALSE, "conv0", FALSE)
+     [] f = "F1N" -> FSpec(<<3, 100>>, 0, FALSE, "limit", FALSE)          \* 2
+     [] f = "F2N" -> FSpec(<<4, 100>>, 0, FALSE, "limit", FALSE)          \* 3
+     [] f = "F3N" -> FSpec(<<3, 100>>, 0, FALSE, "limit", FALSE)          \* 8/105
+     [] f = "F4N" -> FSpec(<<3, 100>>, 0, FALSE, "limit", FALSE)          \* -3/4 (pi^2 - 9)
+     [] f = "G3"  -> FSpec(<<1, 100>>, 0, FALSE, "none", FALSE)
+     [] f = "G4"  -> FSpec(<<1, 100>>, 0, FALSE, "none", FALSE)
+     [] f = "f_PS" -> FSpec(NoWin, 0, TRUE, "limit", TRUE)                \* 0; z < DBL_EPSILON: z (pi^2/3 + log^2 z)
+     [] f = "f_S" -> FSpec(NoWin, 100, FALSE, "limit", TRUE)
+     [] f = "f_sferm" -> FSpec(NoWin, 0, FALSE, "limit", TRUE)
+     [] f = "f_CSl" -> FSpec(NoWin, 0, FALSE, "limit", FALSE)
+     [] f = "F1" -> FSpec(NoWin, 0, TRUE, "limit", TRUE)
+     [] f = "F1t" -> FSpec(NoWin, 0, TRUE, "limit", TRUE)
+     [] f = "F2" -> FSpec(NoWin, 0, TRUE, "none", TRUE)                   \* -> -inf
+     [] f = "F3" -> FSpec(NoWin, 100, TRUE, "none", TRUE)]
+
+BaseClasses == {"tiny", "small", "belowQuarter", "aboveQuarter", "mid", "nearOneLo", "nearOneHi", "one", "above", "hundredLo", "hundredHi",
+                "large", "huge", "negative"}
+ClassesOf(f) == BaseClasses
+   \cup (IF OneVar[f].zero # "none" THEN {"zero"} ELSE {})
+   \cup (IF OneVar[f].win # NoWin THEN {"winLoOut", "winLoIn", "winHiIn", "winHiOut", "winDeep"} ELSE {})
+   \cup (IF OneVar[f].quarter THEN {"quarter", "quarterLo", "quarterHi"} ELSE {})
+   \cup (IF OneVar[f].hi # 0 THEN {"hiEdgeLo", "hiEdgeHi"} ELSE {})
+   \cup (IF OneVar[f].tinyps THEN {"epsEdgeLo", "epsEdgeHi"} ELSE {})
+OneVarCases == UNION {{[fn |-> f, cls |-> c, win |-> OneVar[f].win, hi |-> OneVar[f].hi, zero |-> OneVar[f].zero] : c \in ClassesOf(f)} : f \in DOMAIN OneVar}
+
+\* real dilogarithm (range reduction at -1, 0, 1/2, 1, 2), Clausen function (period 2 pi, symmetry at pi),
+\* complex dilogarithm (unit disc, |z| < 1/2 vs. log-series near 1, inversion outside, the cut re > 1)
+DilogClasses == {"negHuge", "negLarge", "negOneLo", "negOne", "negOneHi", "negSmall", "zero", "posSmall", "halfLo", "half", "halfHi",
+                 "oneLo", "one", "oneHi", "twoLo", "two", "twoHi", "large", "huge"}
+Cl2Classes == {"zero", "tiny", "small", "piLo", "pi", "piHi", "twoPiLo", "twoPi", "twoPiHi", "neg", "negPi", "large", "huge", "generic"}
+CDilogClasses == {"zero", "tinyMod", "insideHalf", "halfCircle", "unitCircle", "nearOne", "one", "outside", "farOutside", "realAxisLeft",
+                  "cutAbove", "cutBelow", "imagAxis", "negReal", "generic"}
+SpecialCases == {[fn |-> "dilog", cls |-> c, win |-> NoWin, hi |-> 0, zero |-> "limit"] : c \in DilogClasses}
+          \cup {[fn |-> "clausen_2", cls |-> c, win |-> NoWin, hi |-> 0, zero |-> "limit"] : c \in Cl2Classes}
+          \cup {[fn |-> "cdilog", cls |-> c, win |-> NoWin, hi |-> 0, zero |-> "limit"] : c \in CDilogClasses}
+C01Cases == OneVarCases \cup SpecialCases
+
+\* ---- Part 3 (C02): argument classes of the many-variable functions
 TwoVarFunctions == {"Fa", "Fb", "FPZ", "FSZ", "FCWl"}
 PairClasses == {"generic", "equal", "near12", "near9", "near6", "near4", "near3", "near2", "near1", "bothOne", "xOne", "yOne",
                 "xZero", "yZero", "ratioBig", "ratioSmall", "bothQuarter"}
